@@ -45,8 +45,47 @@ CONTEXTS = [
 ]
 
 
+# reference option grammars (kubectl options / kubectl exec --help / docker exec --help; the tools are not installed): which
+# options stand alone and which take a value, as a separate word or =-joined
+K_GLOBAL_BOOL = ["--insecure-skip-tls-verify", "--match-server-version", "--warnings-as-errors", "--insecure-skip-tls-verify=true", "--match-server-version=false"]
+K_GLOBAL_VAL = ["--as", "--as-group", "--as-uid", "--cache-dir", "--certificate-authority", "--client-certificate", "--client-key", "--cluster", "--context", "--kubeconfig", "--log-flush-frequency", "-n", "--namespace",
+                "--password", "--profile", "--profile-output", "--request-timeout", "-s", "--server", "--tls-server-name", "--token", "--user", "--username", "-v", "--vmodule"]
+K_EXEC_BOOL = ["-i", "-t", "-it", "-ti", "--stdin", "--tty", "-q", "--quiet"]
+K_EXEC_VAL = ["-c", "--container", "--pod-running-timeout", "-f", "--filename"]
+# names that are also kubectl verbs: a value or a pod called like this must not be taken for the action
+K_NAMES = ["pod", "web-0", "get", "logs", "top", "version", "config", "auth", "wait", "diff", "describe", "exec", "explain", "x", "deploy/web"]
+D_EXEC_BOOL = ["-d", "-i", "-t", "-it", "-ti", "--detach", "--interactive", "--tty", "--privileged", "-itd"]
+D_EXEC_VAL = ["-e", "--env", "--env-file", "-u", "--user", "-w", "--workdir", "--detach-keys"]
+D_NAMES = ["c1", "web", "ls", "exec", "ps", "images", "x"]
+
+
+def gen_exec_form(r):
+    """a command line from the reference grammar, with {i} where the inner command goes"""
+    def opts(bools, vals, names, n):
+        out = []
+        for _ in range(n):
+            if r.chance(0.45):
+                out.append(r.pick(bools))
+            else:
+                o, v = r.pick(vals), r.pick(names)
+                if o.startswith("--") and r.chance(0.4):
+                    out.append(o + "=" + v)
+                elif not o.startswith("--") and r.chance(0.3):
+                    out.append(o + v)
+                else:
+                    out += [o, v]
+        return out
+
+    if r.chance(0.6):
+        words = ["kubectl"] + opts(K_GLOBAL_BOOL, K_GLOBAL_VAL, K_NAMES, r.randint(0, 2)) + ["exec"] + opts(K_EXEC_BOOL, K_EXEC_VAL, K_NAMES, r.randint(0, 2)) + [r.pick(K_NAMES)]
+        words += opts(K_EXEC_BOOL, K_EXEC_VAL, K_NAMES, r.randint(0, 1)) + ["--", "{i}"]
+    else:
+        words = [r.pick(["docker", "podman"]), "exec"] + opts(D_EXEC_BOOL, D_EXEC_VAL, D_NAMES, r.randint(0, 3)) + [r.pick(D_NAMES), "{i}"]
+    return " ".join(words)
+
+
 def gen(r):
-    form = r.pick(EXEC_FORMS)
+    form = gen_exec_form(r) if r.chance(0.5) else r.pick(EXEC_FORMS)
     pathfree = r.chance(0.55)
     inner = r.pick(INNERS_PATHFREE if pathfree else INNERS_PATHY)
     ctxname, ctx = r.pick(CONTEXTS) if r.chance(0.6) else CONTEXTS[0]
